@@ -1074,11 +1074,37 @@ fn check_state(mem: &mut Mem, t: &Tree, m: &Model, probes: &[Vec<u8>], w: &mut W
         }
     }
     // ---- content (raw in-order entries) vs model
-    if content_ok {
-        if let Some((class, detail)) = w.content_diff(mem, m) {
-            viols.push(V { prop: "C28", oracle: "content", class: format!("model>{class}"), expected: format!("{} entries equal to the model", m.map.len()), observed: detail, blocking: true });
+    if let Some((class, detail)) = w.content_diff(mem, m) {
+        viols.push(V { prop: "C28", oracle: "content", class: format!("model>{class}"), expected: format!("{} entries equal to the model", m.map.len()), observed: detail, blocking: true });
+        content_ok = false;
+    }
+    // ---- get(k) for every alphabet key
+    for k in probes {
+        let want = m.map.get(k).copied();
+        let root = t.root;
+        let got = vcore::catch(|| -> Result<Option<Option<Val>>, String> {
+            let bt = BTree::new(mem, root).map_err(|e| e.to_string())?;
+            let r = bt.get(k).map_err(|e| e.to_string())?;
+            Ok(r.map(val_of))
+        });
+        let obs = match &got {
+            Ok(Ok(None)) => "none".to_string(),
+            Ok(Ok(Some(v))) if want.is_some() && *v == want => "some".to_string(),
+            Ok(Ok(Some(_))) if want.is_some() => "wrong-value".to_string(),
+            Ok(Ok(Some(_))) => "some".to_string(),
+            Ok(Err(e)) => format!("err({})", err_class(e)),
+            Err(p) => format!("panic({})", err_class(p)),
+        };
+        let exp = if want.is_some() { "some" } else { "none" };
+        if obs != exp {
+            viols.push(V { prop: "C28", oracle: "get", class: format!("{exp}>{obs}"), expected: format!("get({}) = {:?}", hex(&k[..k.len().min(9)]), want), observed: format!("{:?}", got), blocking: true });
             content_ok = false;
+            break;
         }
+    }
+    if !content_ok {
+        // the cursor oracles would only restate the divergence
+        return StateReport { viols, content_ok, empties: w.empties, height: w.height, root_seps: w.root_seps, leaves: w.leaves.len() };
     }
     let big = m.map.len() > 128;
     let limit = 2 * m.map.len() + 16;
@@ -1097,10 +1123,9 @@ fn check_state(mem: &mut Mem, t: &Tree, m: &Model, probes: &[Vec<u8>], w: &mut W
     // ---- seek + tail, get
     let tail = if big { 32 } else { usize::MAX };
     let mut seek_reported = false;
-    let mut get_reported = false;
     for k in probes {
-        if !seek_reported && !scan_matches(mem, t.root, Start::Seek(k), &mut m.map.range::<[u8], _>(&k[..]..), tail) {
-            let exp: Vec<(Vec<u8>, Val)> = m.map.range::<[u8], _>(&k[..]..).take(tail.min(limit)).map(|(k, v)| (k.clone(), *v)).collect();
+        if !seek_reported && !scan_matches(mem, t.root, Start::Seek(k), &mut m.map.range::<[u8], _>((std::ops::Bound::Included(&k[..]), std::ops::Bound::Unbounded)), tail) {
+            let exp: Vec<(Vec<u8>, Val)> = m.map.range::<[u8], _>((std::ops::Bound::Included(&k[..]), std::ops::Bound::Unbounded)).take(tail.min(limit)).map(|(k, v)| (k.clone(), *v)).collect();
             let (obs, err) = scan_collect(mem, t.root, Start::Seek(k), tail.min(limit));
             // where does the expected first entry live relative to the leaf the probe routes to?
             let expc = match exp.first() {
@@ -1125,29 +1150,6 @@ fn check_state(mem: &mut Mem, t: &Tree, m: &Model, probes: &[Vec<u8>], w: &mut W
             };
             viols.push(V { prop: "C28", oracle: "seek", class: format!("{expc}>{obsc}"), expected: format!("seek({}) -> {}", hex(&k[..k.len().min(9)]), show_exp(&exp)), observed: format!("{} {}", show(&obs), err.unwrap_or_default()), blocking: false });
             seek_reported = true;
-        }
-        if !get_reported {
-            let want = m.map.get(k).copied();
-            let root = t.root;
-            let got = vcore::catch(|| -> Result<Option<Option<Val>>, String> {
-                let bt = BTree::new(mem, root).map_err(|e| e.to_string())?;
-                let r = bt.get(k).map_err(|e| e.to_string())?;
-                Ok(r.map(val_of))
-            });
-            let obs = match &got {
-                Ok(Ok(None)) => "none".to_string(),
-                Ok(Ok(Some(v))) if want.is_some() && *v == want => "some".to_string(),
-                Ok(Ok(Some(_))) if want.is_some() => "wrong-value".to_string(),
-                Ok(Ok(Some(_))) => "some".to_string(),
-                Ok(Err(e)) => format!("err({})", err_class(e)),
-                Err(p) => format!("panic({})", err_class(p)),
-            };
-            let exp = if want.is_some() { "some" } else { "none" };
-            if obs != exp {
-                viols.push(V { prop: "C28", oracle: "get", class: format!("{exp}>{obs}"), expected: format!("get({}) = {:?}", hex(&k[..k.len().min(9)]), want), observed: format!("{:?}", got), blocking: true });
-                content_ok = false;
-                get_reported = true;
-            }
         }
     }
     StateReport { viols, content_ok, empties: w.empties, height: w.height, root_seps: w.root_seps, leaves: w.leaves.len() }
@@ -1209,7 +1211,7 @@ fn alpha(name: &'static str) -> Alpha {
     Alpha { name, keys, sizes, ops }
 }
 
-const SEEDS: [&str; 7] = ["empty", "seq600", "reverse", "shuffled", "deep3", "rootfull", "alpha"];
+const SEEDS: [&str; 7] = ["empty", "seq800", "reverse", "shuffled", "deep3", "rootfull", "alpha"];
 
 struct Seed {
     name: &'static str,
@@ -1226,8 +1228,8 @@ fn build_seed(name: &'static str, plant: bool) -> Seed {
     let v = |len: u32| Val { len, fill: 0xC1 };
     match name {
         "empty" => {}
-        "seq600" => {
-            for i in 0..600u32 {
+        "seq800" => {
+            for i in 0..800u32 {
                 plan.push((Kind::Append, fam(2 * i), v(10)));
             }
         }
@@ -1580,15 +1582,6 @@ struct Env {
     walk: Walk,
 }
 
-fn case_json(env: &Env, task: &Task, ops: &[u16], extra: Option<u16>) -> Value {
-    let a = &env.alphas[task.alpha];
-    let mut l: Vec<Value> = ops.iter().map(|&o| a.ops[o as usize].to_json()).collect();
-    if let Some(o) = extra {
-        l.push(a.ops[o as usize].to_json());
-    }
-    json!({"seed": env.seeds[task.seed].name, "pass": task.pass.name(), "alpha": a.name, "ops": l})
-}
-
 fn enabled(op: &Op, m: &Model, pass: Pass) -> bool {
     match op.kind {
         // API contract (doc comment of insert_append): the key must be greater than every stored key
@@ -1816,7 +1809,7 @@ fn seed_name(i: usize) -> &'static str {
 
 impl Check for C28 {
     fn specs(&self) -> Vec<Spec> {
-        const RULE: &str = "explicit-state breadth-first search of the real turdb::btree::BTree on an in-memory Storage: from each seed tree (empty; 600 sequential small keys; reverse and shuffled bulk loads; 3-level tree of 900-byte keys; interior root one separator short of full; tree preloaded with the alphabet keys) every sequence of calls up to the task depth over the alphabet {insert, insert_if_not_exists, insert_append (only when key > max, as its contract requires), update, delete} x alphabet keys x value sizes is executed, in five passes (A hint persisted, B no hint, C no emptied leaves, D no growing updates, E stale hint). A case is one distinct state = (bytes of every page outside the free gap, page count, root page, persisted hint, model map), deduplicated globally by a 128-bit hash; every state is rebuilt from its seed by replaying real calls and is non-trivial (it was reached by a real call sequence and is checked by all oracles: return value, Err-leaves-map-unchanged, forward/backward cursor scans, cursor_seek + tail and get for every alphabet key, raw-byte structural walker).";
+        const RULE: &str = "explicit-state breadth-first search of the real turdb::btree::BTree on an in-memory Storage: from each seed tree (empty; 800 sequential small keys; reverse and shuffled bulk loads; 3-level tree of 900-byte keys; interior root one separator short of full; tree preloaded with the alphabet keys) every sequence of calls up to the task depth over the alphabet {insert, insert_if_not_exists, insert_append (only when key > max, as its contract requires), update, delete} x alphabet keys x value sizes is executed, in five passes (A hint persisted, B no hint, C no emptied leaves, D no growing updates, E stale hint). A case is one distinct state = (bytes of every page outside the free gap, page count, root page, persisted hint, model map), deduplicated globally by a 128-bit hash; every state is rebuilt from its seed by replaying real calls and is non-trivial (it was reached by a real call sequence and is checked by all oracles: return value, Err-leaves-map-unchanged, forward/backward cursor scans, cursor_seek + tail and get for every alphabet key, raw-byte structural walker).";
         const ASSUME: &[&str] = &[
             "bytes inside the free gap [free_start, free_end) of a page are never read by the B-tree (they are excluded from the state hash); everything else is hashed exactly",
             "a rightmost hint handed to with_rightmost_hint is always a value previously returned by rightmost_hint() of the same tree (fresh in passes A/C/D, never refreshed in pass E); arbitrary page numbers are API misuse and not explored",
